@@ -18,6 +18,25 @@
 #include "json_visit.h"
 #include "linkhash.h"
 #include "json_object_private.h"   /* observation only: _ref_count */
+#include <sys/wait.h>
+
+/* ---- the seed source of lh_char_hash as an oracle (case kind S) ----
+ * lh_char_hash latches its seed once per process, drawing from json_c_get_random_seed()
+ * until the answer is not the "unset" sentinel -1.  The library's function is compiled into
+ * this unit under another name; the public name first hands out a scripted sequence of draws
+ * and then falls back to the real source.  Because of the latch an S case must be the first
+ * use of the hash in its process: the driver re-executes itself for each S case. */
+// EXCLUDE: random_seed.c
+#define json_c_get_random_seed real_json_c_get_random_seed
+#include "random_seed.c"
+#undef json_c_get_random_seed
+static int draws[32];
+static int n_draws, next_draw;
+int json_c_get_random_seed(void)
+{
+	if (next_draw < n_draws) return draws[next_draw++];
+	return real_json_c_get_random_seed();
+}
 const char *DOMAIN = "lh";
 // WITH: drv_lh_ansi.c
 /* loops compiled as a strict ISO C application: the portable definition of
@@ -693,6 +712,55 @@ static void mode_hh(char *rest)
 	lh_table_free(t);
 }
 
+static void mode_b(char *rest);
+/* S <draws> <a mode B line>: the history runs in a fresh process whose seed source answers the
+ * scripted draws first */
+static void mode_s(char *rest)
+{
+	char *sp = strchr(rest, ' ');
+	char path[] = "/tmp/lh_seed_XXXXXX";
+	int fd, pfd[2], status = 0;
+	pid_t pid;
+	struct sb out = {0};
+	char buf[4096];
+	ssize_t got;
+	if (!sp) { printf("BADLINE"); return; }
+	if (getenv("LH_SEED_CHILD")) {
+		char *p = rest;
+		*sp = 0;
+		n_draws = next_draw = 0;
+		while (*p && n_draws < 32) {
+			draws[n_draws++] = (int)strtol(p, &p, 10);
+			if (*p == ',') p++;
+		}
+		mode_b(sp + 1);
+		return;
+	}
+	fd = mkstemp(path);
+	if (fd < 0 || pipe(pfd) != 0) { printf("FORKFAIL"); return; }
+	dprintf(fd, "lh S %s\n", rest);
+	close(fd);
+	fflush(stdout);
+	pid = fork();
+	if (pid == 0) {
+		dup2(pfd[1], 1);
+		close(pfd[0]); close(pfd[1]);
+		setenv("LH_SEED_CHILD", "1", 1);
+		execl("/proc/self/exe", "drv_lh", path, (char *)NULL);
+		_exit(127);
+	}
+	close(pfd[1]);
+	while ((got = read(pfd[0], buf, sizeof buf - 1)) > 0) { buf[got] = 0; sb_put(&out, buf); }
+	close(pfd[0]);
+	if (pid < 0 || waitpid(pid, &status, 0) < 0) status = -1;
+	unlink(path);
+	if (out.n && out.p[out.n - 1] == '\n') out.p[--out.n] = 0;
+	if (out.n > 2 && out.p[0] == '1' && out.p[1] == ' ') printf("%s", out.p + 2);
+	if (status != 0) printf("%sCRASH child", out.n > 2 ? " | " : "");
+	else if (out.n <= 2) printf("MISSING");
+	sb_free(&out);
+}
+
 void run_case(char *rest)
 {
 	alarm(4);           /* a probe or chain loop that does not terminate ends as a crash */
@@ -700,6 +768,7 @@ void run_case(char *rest)
 	else if (rest[0] == 'B' && rest[1] == ' ') mode_b(rest + 2);
 	else if (rest[0] == 'L' && rest[1] == ' ') mode_l(rest + 2);
 	else if (rest[0] == 'H' && rest[1] == ' ') mode_hh(rest + 2);
+	else if (rest[0] == 'S' && rest[1] == ' ') { alarm(12); mode_s(rest + 2); }
 	else printf("BADLINE");
 	alarm(0);
 }
